@@ -450,11 +450,37 @@ def runtime_layer(ctx):
             progs.append([(rng.choice([1, 1, 2, 3, 4, 5]), rng.randint(0, 1)) for _ in range(rng.randint(1, 6))])
         rng.shuffle(progs)
         cases.append(core.fmt_case([200000, 1], progs, []))
+    n1 = len(cases)
+    # N kernel threads: a fiber that unlocks a contended mutex and then polls a flag with fiber_yield() until the woken
+    # waiter has run ("yield-based polling loops cannot starve the very fiber they wait for"), other fibers keeping the
+    # other kernel threads busy; judged by the runtime oracle (a runnable fiber queued on a thread must be handed out
+    # within a bounded number of that thread's yields)
+    for _ in range(6 * n):
+        nk = rng.choice([2, 2, 3])
+        k = rng.randint(0, 4)
+        progs = [[(2, 1)] + [(1, 0)] * k + [(3, 1), (27, 0)],            # U: lock, ..., unlock (wakes X), poll
+                 [(2, 1), (28, 0), (3, 1)]]                              # X: lock (blocks), set the flag, unlock
+        for _f in range(rng.choice([0, 0, 0, 1])):
+            progs.append([(1, 0)] * rng.randint(10, 50))                 # sometimes a busy yielder
+        rng.shuffle(progs)
+        cases.append(core.fmt_case([200000, nk], progs,
+                                   core.random_sched(rng, nk, rng.randint(50, 3000), rng.choice([0, 1, 2, 3, 3]))))
+    # stall sweep: the two kernel threads alternate for p steps, then ONE of them runs alone for a long stretch (the other
+    # is pre-empted wherever it happens to be: e.g. between queueing itself on the mutex and completing its switch), then
+    # they alternate again; every p, both choices of the running thread, both creation orders
+    for order in (0, 1):
+        for k in (0, 2):
+            for p in range(0, 500, 2 if ctx.tier == "quick" else 1):
+                for B in (0, 1):
+                    progs = [[(2, 1)] + [(1, 0)] * k + [(3, 1), (27, 0)], [(2, 1), (28, 0), (3, 1)]]
+                    if order:
+                        progs.reverse()
+                    cases.append(core.fmt_case([200000, 2], progs, [0, 1] * (p // 2) + [B] * 900 + [0, 1] * 300))
     impl = core.run_sharded([exe], cases, timeout=900)
     bad = 0
-    for c, line in zip(cases, impl):
+    for i, (c, line) in enumerate(zip(cases, impl)):
         tr = core.parse_trace(line) if line is not None else None
-        why = core.safe_monitor(rt_bypass_monitor, c, tr, line) or core.safe_monitor(C01.monitor, c, tr, line)
+        why = (core.safe_monitor(rt_bypass_monitor, c, tr, line) if i < n1 else None) or core.safe_monitor(C01.monitor, c, tr, line)
         if why:
             bad += 1
             if bad <= 3:
